@@ -1332,8 +1332,8 @@ def run(ctx: Ctx):
             drv = Driver("drv_c18")
         except InfraError:
             drv = None
-    jobs, enum_specs, flag_specs = collect(ctx, drv is not None, ctx.budget(45, 900), ctx.budget(45, 900),
-                                           ctx.budget(2, 3))
+    jobs, enum_specs, flag_specs = collect(ctx, drv is not None, ctx.budget(140, 1800), ctx.budget(140, 1800),
+                                           ctx.budget(3, 4))
     if drv is not None:
         replies = drv.batch([j[3] for j in jobs])
         counts = {"enum-codec": [0, 0], "flag-codec": [0, 0]}
